@@ -6,7 +6,7 @@ import ExaModel.Driver.Util
    reload load <ok|first|syn:k|exc:k|missing> <procs> <nbr>*     → ok | fail
         nbr   = name/key/fams/adj/routes      fams = 1.2   adj = 0|1
         route = n:f:a:h:g  |  n:f:a:h:g:w:p   (watchdog w, parked p)      routes comma separated, - = none
-   reload nbrs | procs | peers | ribs
+   reload nbrs | procs | peers | ribs | pending
    reload rib <name>
    reload api <name> add <route> <force> | reload api <name> del <n> <f>
    reload looptop|lost|est|start|sendupd <name>
@@ -90,6 +90,7 @@ def reloadLine (w : World) (ws : List String) : World × String :=
     (w, joinWith "," (w.nbrs.map (fun p => s!"{p.1}:{p.2.key}:{showFams p.2.fams}:{b p.2.adjOut}:{p.2.routes.length}")))
   | ["procs"] => (w, joinWith "," ((sortNats w.procs).map toString))
   | ["peers"] => (w, joinWith "," (w.peers.map (fun p => showPeer p.1 p.2)))
+  | ["pending"] => (w, joinWith "," (w.pending.map (fun n => toString n.name)))
   | ["ribs"] => (w, joinWith "," ((sortNats (AList.keys w.ribs)).map toString))
   | ["rib", name] =>
     match name.toNat? with
